@@ -171,4 +171,4 @@ def run(ctx) -> None:
     host = st.tuples(st.booleans(), st.sampled_from([2, 3]), st.sampled_from([0xAC, 0xAC, 0xA1, 0xFF]), st.sampled_from(discsim.BAD_KINDS), st.integers(0, 60))
     cases = st.fixed_dictionaries({"hosts": st.lists(host, min_size=1, max_size=4), "order": st.lists(st.integers(0, 3), min_size=1, max_size=14),
                                    "auto": st.booleans(), "spacing": st.sampled_from([0.0, 0.001, 0.2])}).map(mk_case)
-    ctx.hyp("random", cases, lambda c: _run_one(ctx, c), ctx.n(1200, 128000))
+    ctx.hyp("random", cases, lambda c: _run_one(ctx, c), ctx.n(4000, 200000))
